@@ -457,6 +457,7 @@ int dns_decode(char *buf, size_t buflen, struct query *q, qr_t qr, char *packet,
 			q->id = id;
 
 		/* Read name even if no answer, to give better error message */
+		memset(name, 0, sizeof(name));
 		readname(packet, packetlen, &data, name, sizeof(name));
 		CHECKLEN(4);
 		readshort(packet, &data, &type);
@@ -486,6 +487,7 @@ int dns_decode(char *buf, size_t buflen, struct query *q, qr_t qr, char *packet,
 			readlong(packet, &data, &ttl);
 			readshort(packet, &data, &rlen);
 
+			CHECKLEN(rlen);
 			rv = MIN(rlen, sizeof(rdata));
 			rv = readdata(packet, &data, rdata, rv);
 			if (rv >= 2 && buf) {
@@ -516,6 +518,7 @@ int dns_decode(char *buf, size_t buflen, struct query *q, qr_t qr, char *packet,
 			if (type == T_A) {
 				/* Answer type A includes only 4 bytes.
 				   Not used for tunneling. */
+				CHECKLEN(rlen);
 				rv = MIN(rlen, sizeof(rdata));
 				rv = readdata(packet, &data, rdata, rv);
 				if (rv >= 2 && buf) {
@@ -595,6 +598,7 @@ int dns_decode(char *buf, size_t buflen, struct query *q, qr_t qr, char *packet,
 			readlong(packet, &data, &ttl);
 			readshort(packet, &data, &rlen);
 
+			CHECKLEN(rlen);
 			rv = readtxtbin(packet, &data, rlen, rdata,
 				        sizeof(rdata));
 			if (rv >= 1) {
